@@ -44,6 +44,29 @@ def run(P, R, tier):
     # the value range [0, 4^p): 2*p bits survive every cast between the curve kernel and the public result
     from rules import C09 as _C09
     _C09.narrow_casts(P, R, 'C08.f')
+    # C08.g: "whatever sequence type total_bounds is given as": the jit kernel needs a homogeneous tuple/array, so the elements are converted
+    # to float between the parameter and the kernel call (integer bounds widened by `+= 1.0` would otherwise give an (int, int, float, int) tuple
+    # that numba cannot type: TypingError instead of a result)
+    tbp = hd.params[1] if len(hd.params) > 1 else 'total_bounds'
+    conv = []
+    for n_ in walk_own(hd.node):
+        if isinstance(n_, (ast.ListComp, ast.GeneratorExp)) and isinstance(n_.elt, ast.Call) and norm(n_.elt.func) in ('float', 'np.float64') \
+                and tbp in astq.names_in(n_.generators[0].iter):
+            conv.append(n_)
+        if isinstance(n_, ast.Call):
+            fn_ = norm(n_.func)
+            if fn_ == 'map' and n_.args and norm(n_.args[0]) in ('float', 'np.float64') and any(tbp in astq.names_in(a) for a in n_.args[1:]):
+                conv.append(n_)
+            if fn_.split('.')[-1] in ('asarray', 'array', 'asfarray') and n_.args and tbp in astq.names_in(n_.args[0]) \
+                    and (fn_.endswith('asfarray') or any(k.arg == 'dtype' and norm(k.value) in ('float', 'np.float64', "'float64'", "'f8'") for k in n_.keywords)):
+                conv.append(n_)
+            if isinstance(n_.func, ast.Attribute) and n_.func.attr == 'astype' and tbp in astq.names_in(n_.func.value) and n_.args and norm(n_.args[0]) in ('float', 'np.float64', "'float64'", "'f8'"):
+                conv.append(n_)
+    kcalls = [c for c in astq.own_calls(hd) if astq.is_call_to(P, hd, c, dfb)]
+    R.floor('C08.g', 'calls of the distance kernel in hilbert_distance', len(kcalls), 1)
+    R.check(bool(conv), 'C08.g', hd, kcalls[0], 'the elements of total_bounds are converted to float before the jit kernel receives them (any mix of int/float elements is accepted)',
+            'total_bounds reaches the jit kernel with the caller\'s element types: a sequence mixing ints and floats, or integer bounds of zero width widened by `+= 1.0`, '
+            'gives a heterogeneous tuple that numba cannot type (TypingError instead of a result)', construct='total_bounds elements converted to float')
     # ---------------------------------------------------------------- C08.a
     tree = [f for f in P.reachable([hd], follow_nested=False) if f.mod.name in ('spatialpandas.geometry.base', 'spatialpandas.spatialindex.rtree', 'spatialpandas.utils',
                                                                                    'spatialpandas.spatialindex.hilbert_curve')]
